@@ -312,10 +312,13 @@ fn body(ch: &Ch) -> Run {
         if !msg.contains("Unknown export") {
           run.violate("unknown-export-wrong-error", format!("{spec}: {msg}"), case(json!({})));
         } else {
-          for k in keys {
-            if !msg.contains(&format!("{k}")) {
-              run.violate("unknown-export-error-does-not-list-exports", format!("{spec}: {msg} (manifest exports {keys:?})"), case(json!({})));
-            }
+          // the listing: one " * <export>" line per manifest export
+          let mut listed: Vec<String> = msg.lines().filter_map(|l| l.strip_prefix(" * ")).map(|s| s.to_string()).collect();
+          listed.sort();
+          let mut want = keys.clone();
+          want.sort();
+          if listed != want {
+            run.violate("unknown-export-error-does-not-list-exports", format!("{spec}: error lists {listed:?}, the manifest's exports are {want:?}"), case(json!({})));
           }
         }
       }
